@@ -21,7 +21,7 @@ RULE = ("every CPUDispatcher / DUFunc defined in xs.py, plasma.py, _radial_dist.
         "a kernel that fails to compile or to execute is a violation. non-trivial = finite non-zero output; distinct = (kernel, variant, input)")
 MONITORED = ["compilation of every kernel for every exercised signature", "decorator options unchanged (nopython, no fastmath)"]
 OUTSIDE = ["numba / LLVM code generation itself (trusted base): agreement is established by exploration, not proof",
-           "boltzmann_radial_potential_linear_density_ebeam_sor has no model (dispatcher vs py_func only)"]
+           "boltzmann_radial_potential_linear_density_ebeam_sor: dispatcher vs py_func here; its Lean model (Radial.bpEbeamSor) is compared in C13"]
 ASSUMPTIONS = ["CPython + numpy evaluate py_func as the language reference"]
 
 
